@@ -4,7 +4,9 @@
    switch, bank and music loads, accepted and rejected) is executed on spec/Settings.tla and every
    transition is judged by the same predicates the trace specification applies to the real library.
    Fix = {} is the code as it stands (TLC then reports the store-before-validate defects);
-   Fix = {"numchips", "trackopt", "dumper"} is the repaired design.  WithDumper adds the VGM-dumper
+   Fix = {"numchips", "trackopt", "dumper", "rsxxlock"} is the repaired design.  OpenMidi s = 3 is the EA-MUS song
+   that locks the set-up: with four calls the model reaches bank, EA-MUS song, setter while locked, and the call
+   that ends the lock (ordinary song, bank, chip type, or a rejected file).  WithDumper adds the VGM-dumper
    pseudo-emulator, which takes the loop hooks and forces "loop hooks only" by design.
    In -simulate mode Emit prints BEHAVIOUR lines (indices into Ops) that are replayed on the library. *)
 EXTENDS Settings, Json
@@ -32,6 +34,7 @@ Ops ==
      [e |-> "Reset"],
      [e |-> "OpenBank", b |-> 1, bad |-> 0], [e |-> "OpenBank", b |-> 2, bad |-> 0], [e |-> "OpenBank", b |-> 1, bad |-> 1],
      [e |-> "OpenMidi", s |-> 1, bad |-> 0], [e |-> "OpenMidi", s |-> 2, bad |-> 0], [e |-> "OpenMidi", s |-> 1, bad |-> 1],
+     [e |-> "OpenMidi", s |-> 3, bad |-> 0],
      V("SwitchEmulator", 7) >>
 NOps == IF WithDumper THEN Len(Ops) ELSE Len(Ops) - 1
 
@@ -39,11 +42,11 @@ Init == S = Derive(S0) /\ R = R0 /\ viol = {} /\ hist = <<>>
 Next == \E i \in 1..NOps :
   LET ev == Ops[i]
       x0 == ModelStep(S, ev, Fix)
-      R1 == RefStep(R, ev, x0.r)
+      R1 == RefStep(R, ev, x0.r, S)
       x == [x0 EXCEPT !.s.ho = IF @ = -1 THEN R1.ho ELSE @]      \* the repaired design restores the user's value
   IN /\ S' = x.s /\ R' = R1 /\ hist' = Append(hist, i)
      /\ viol' = viol \cup (IF x.r = -99 THEN {"crash:" \o ev.e}
-                         ELSE CallFails(S, ev, x.r, x.s, R) \cup ForceFails(x.s, R1) \cup ReloadFails(ev, x.r, R))
+                         ELSE CallFails(S, ev, x.r, x.s, R, R1) \cup ForceFails(x.s, R1) \cup ReloadFails(ev, x.r, R))
 Spec == Init /\ [][Next]_vars
 NoBad == viol = {}
 DepthBound == Len(hist) <= MaxDepth          \* histories of at most MaxDepth calls (exact, unlike TLCGet("level") with several workers)
